@@ -30,7 +30,9 @@ func main() {
 		corpus(w)
 		fmtCorpus(w)
 		mathCorpus(w)
+		spellRand = lib.NewRand(a.Seed ^ 0x5e11)
 		genStrings(w, r, a.Tier)
+		spellRand = nil
 		genFormat(w, r.Fork(), a.Tier)
 		genMath(w, r.Fork(), a.Tier)
 	}
